@@ -1,4 +1,5 @@
 import LeptosModel.Proofs.RViewMTree
+import LeptosModel.Proofs.RViewMain
 /-!
 # Proofs/RViewMBuild — `build` over signals and memos, `Show` included
 -/
@@ -205,7 +206,23 @@ theorem addMemoM {K : Nat} {st : St} (h : RM K st) {c : Expr} (hs : sigOnly K c 
         have h1 := hd.1
         rw [hnew] at h1; cases h1
     · simp only [DeadE, hold i hi]
-  refine ⟨rfl, ⟨htop.congrD hdead, hwf, htr, ?_, ?_⟩, ⟨⟨[_], rfl⟩, fun _ hf => hf.elim, ?_, fun _ h => h⟩,
+  have hff : ∀ i, ((st.rs.push (initNode (.memo (showBody c)))).get i).kind = .eff →
+      ((st.rs.push (initNode (.memo (showBody c)))).get i).first = false := by
+    intro i hk
+    by_cases hi : i = st.rs.nodes.length
+    · subst hi; rw [hnew] at hk; cases hk
+    · rw [hold i hi] at hk ⊢; exact h.firstF i hk
+  have hnwAll : ∀ (i : Nat) (y : Expr), (st.prog ++ [NodeDef.memo (showBody c)])[i]? = some (NodeDef.eff y) →
+      y.noWrite = true := by
+    intro i y hy
+    rcases Nat.lt_or_ge i st.prog.length with hl | hl
+    · rw [List.getElem?_append_left hl] at hy; exact h.nwAll i y hy
+    · rcases Nat.lt_or_ge st.prog.length i with hl2 | hl2
+      · rw [List.getElem?_eq_none (by simp; omega)] at hy; cases hy
+      · have : i = st.prog.length := by omega
+        subst this
+        simp at hy
+  refine ⟨rfl, ⟨htop.congrD hdead, hwf, htr, ?_, ?_, hff, hnwAll⟩, ⟨⟨[_], rfl⟩, fun _ hf => hf.elim, ?_, fun _ h => h⟩,
     ⟨rfl, rfl, rfl, rfl⟩, rfl⟩
   · show K ≤ (st.prog ++ [NodeDef.memo (showBody c)]).length
     have := h.kle; simp; omega
@@ -387,5 +404,91 @@ theorem build_specM {K : Nat} : ∀ (v : View) (st : St), RM K st → v.wf K = t
     · rw [hbn]; exact ⟨hn.zombies, hn.root, hn.rootN, hn.disposed⟩
   | scope sid d kid _ => intro st _ _ hc; simp [View.coreS] at hc
   | forRows sel lists row _ => intro st _ _ hc; simp [View.coreS] at hc
+
+theorem build_tasksM : ∀ (v : View) (st : St), v.coreS = true → ∀ e, e ∈ (build v st).2.tasks →
+    e ∈ st.tasks ∨ e ∈ effsOf (build v st).1 := by
+  intro v
+  induction v with
+  | text s => intro st _ e h; exact Or.inl h
+  | unit => intro st _ e h; exact Or.inl h
+  | elem tag attrs kid ih =>
+    intro st hc e h
+    rw [build_elem] at h ⊢
+    dsimp only at h ⊢
+    rcases ih _ hc e h with h1 | h1
+    · rcases buildAttrs_tasks attrs _ e h1 with h2 | h2
+      · exact Or.inl h2
+      · exact Or.inr (by simp [effsOf, h2])
+    · exact Or.inr (by simp [effsOf, h1])
+  | seq a b iha ihb =>
+    intro st hc e h
+    simp only [View.coreS, Bool.and_eq_true] at hc
+    rw [build_seq] at h ⊢
+    dsimp only at h ⊢
+    rcases ihb _ hc.2 e h with h1 | h1
+    · rcases iha st hc.1 e h1 with h2 | h2
+      · exact Or.inl h2
+      · exact Or.inr (by simp [effsOf, h2])
+    · exact Or.inr (by simp [effsOf, h1])
+  | dynText x =>
+    intro st _ e h
+    rw [build_dynText] at h ⊢
+    dsimp only at h ⊢
+    simp only [St.spawn, St.alloc, List.mem_append, List.mem_singleton] at h
+    rcases h with h | h
+    · exact Or.inl h
+    · exact Or.inr (by simp [effsOf, h])
+  | either c a b iha ihb =>
+    intro st hc e h
+    simp only [View.coreS, Bool.and_eq_true] at hc
+    rw [build_either] at h ⊢
+    dsimp only at h ⊢
+    simp only [St.spawn, List.mem_append, List.mem_singleton] at h
+    rcases h with h | h
+    · split at h
+      · next hv =>
+        simp only [hv, if_true]
+        rcases iha _ hc.1 e h with h1 | h1
+        · exact Or.inl h1
+        · exact Or.inr (by simp [effsOf, h1])
+      · next hv =>
+        simp only [hv, if_false]
+        rcases ihb _ hc.2 e h with h1 | h1
+        · exact Or.inl h1
+        · exact Or.inr (by simp [effsOf, h1])
+    · exact Or.inr (by simp [effsOf, h])
+  | «show» c a b iha ihb =>
+    intro st hc e h
+    simp only [View.coreS, Bool.and_eq_true] at hc
+    rw [build_show] at h ⊢
+    dsimp only at h ⊢
+    simp only [St.spawn, List.mem_append, List.mem_singleton] at h
+    rcases h with h | h
+    · split at h
+      · next hv =>
+        simp only [hv, if_true]
+        rcases iha _ hc.1 e h with h1 | h1
+        · exact Or.inl h1
+        · exact Or.inr (by simp [effsOf, h1])
+      · next hv =>
+        simp only [hv, if_false]
+        rcases ihb _ hc.2 e h with h1 | h1
+        · exact Or.inl h1
+        · exact Or.inr (by simp [effsOf, h1])
+    · exact Or.inr (by simp [effsOf, h])
+  | scope sid d kid _ => intro st hc; simp [View.coreS] at hc
+  | forRows sel lists row _ => intro st hc; simp [View.coreS] at hc
+  | forKeyed sel lists =>
+    intro st _ e h
+    rw [build_forKeyed] at h ⊢
+    dsimp only at h ⊢
+    obtain ⟨n, hbn⟩ := buildFor_st (newEff st (st.res sel)).2.2 (listAt lists (newEff st (st.res sel)).2.1)
+    rw [hbn] at h
+    simp only [St.spawn, List.mem_append, List.mem_singleton] at h
+    rcases h with h | h
+    · exact Or.inl h
+    · exact Or.inr (by simp [effsOf, h])
+
+
 
 end Leptos.RView
